@@ -81,6 +81,26 @@ def run(tier, seed, drv):
                     if b in ("held", "kafka"):
                         # the history of subscriptions and deliveries (with these start delays) is an execution of the message-level model
                         SC.msg_level_accept(s2, run_, drv, res, case)
+        # the same configuration from a configuration FILE, DIVIDED over several simulations on one bus (scheduler here,
+        # components there; build_simulation + TickitSimulation.run()) whose start is staggered by 0-3 loop steps either way
+        tops = [c["name"] for c in scn["components"]]
+        divisions = [[{"scheduler": True, "components": "none"}, {"scheduler": False, "components": None}],
+                     [{"scheduler": True, "components": tops[:1]}, {"scheduler": False, "components": tops[1:]}],
+                     [{"scheduler": False, "components": tops[:-1]}, {"scheduler": True, "components": tops[-1:]}],
+                     [{"scheduler": False, "components": [t]} for t in tops] + [{"scheduler": True, "components": "none"}]]
+        for di, parts in enumerate(divisions):
+            for vec in itertools.product((0, 1, 3), repeat=len(parts)):
+                if len(parts) > 2 and rng.random() > (0.15 if tier == "quick" else 0.6):
+                    continue
+                for b in ("internal", "sync", "held"):
+                    s2 = dict(copy.deepcopy(scn), t0=0, from_file=parts, start_delays={f"#part{k}": d for k, d in enumerate(vec)})
+                    sd = rng.randrange(1 << 30)
+                    run_ = run_scenario(s2, bus=b, seed=sd)
+                    case = {"scenario": s2, "bus": b, "held_seed": sd}
+                    res.case(f"{ci}:divided:{di}:{vec}:{b}", nontrivial=any(vec))
+                    res.count("divided-staggered-start")
+                    if SC.check_run(s2, run_, drv, res, monitors_on=("initial_tick", "ticker"), corr=("ticker",), case_extra=case) == 0:
+                        compare(base, run_, scn, res, case)
         # early interrupts: a component that is already running raises before the late scheduler is up
         for late in range(2, maxd + 3):
             for who in [c["name"] for c in S.devices(scn)][:3]:
